@@ -129,6 +129,10 @@ class _Deleted:
   def __repr__(self):
     return "DELETED"
 
+  def __reduce__(self):
+    """Pickles the marker by reference, so that it stays the same object."""
+    return "DELETED"
+
 
 # A marker object to record when a field was deleted.
 DELETED = _Deleted()
